@@ -8,8 +8,9 @@ Fixpoint gv_same_fields (a b : gv) {struct a} : bool :=
   | GPtr _, GPtr _ => true                       (* same pointer; the pointee is shared *)
   | GMapV _, GMapV _ => true                     (* same map; its contents are shared *)
   | GCfgV _, GCfgV _ => true                     (* same *Config; the pointed-to config is shared *)
-  | GSlice l1, GSlice l2 => Nat.eqb (List.length l1) (List.length l2)    (* same slice header; elements are shared *)
-  | GArr l1, GArr l2 | GStructV l1, GStructV l2 =>
+  (* a slice field still shows the entries it had: Unpack builds the new list in fresh storage and
+     never writes through the caller's slice (what the entries point to is shared) *)
+  | GSlice l1, GSlice l2 | GArr l1, GArr l2 | GStructV l1, GStructV l2 =>
     (fix go (l1 l2 : list gv) : bool :=
        match l1, l2 with
        | [], [] => true
